@@ -98,9 +98,22 @@ P("C07", "proof", "Lean 4 invariant-by-induction over operation histories (model
   theorems=["TP.C07.unix_history_refines", "TP.C07.I_comps_eq", "TP.C07.unix_history_bytes", "TP.C07.step_preserves"],
   rule="exhaustive histories of <= 2 ops over tiny arguments + seeded random histories; non-trivial = >= 2 ops; distinct by history", design_ref="§5 C07")
 
-P("C08", "translation_validation", "Lean model vs code differential + rule-table oracle",
-  "push bytes against the model; the documented rule table (independent re-implementation) on the implementation.",
-  TV_NOTE + "Known finding K3 set aside by class predicate.",
+P("C08", "proof", "Lean 4 theorems (model push = documented rule table, byte-exact) + model/code correspondence; component clause by oracle (known finding K3)",
+  "Proved in Lean for ALL byte strings a, b (no well-formedness needed): which of the five documented rules applies is "
+  "decided by the decomposition (b empty / b has a prefix / a has a verbatim-kind prefix / b starts with a separator / "
+  "otherwise), and in the four non-verbatim cases the result's bytes are exactly a, b, a's raw prefix ++ b, or a ++ "
+  "[one `\\` unless a is empty, ends in either separator or is a bare drive] ++ b (win_push_bytes, with the query "
+  "lemmas wPrefix_eq, wHasAnyVerbatim_eq, hasRoot_no_prefix, wIsOnlyDisk_eq tying push's queries to the parsed "
+  "prefix); under a verbatim prefix the result is the re-rendering of a's components followed by b's with `.` dropped, "
+  "`..` cancelling only a preceding normal component and a root resetting to the prefix (win_push_verbatim, "
+  "verbatimFold_no_cur_added); an empty b changes nothing (win_push_empty); sequences of pushes follow the rules "
+  "(pushes_follow_rules).",
+  "Partial: the component-level clause (the result's components are a's followed by b's) is not proved for Windows; it "
+  "is false at known finding K3 (win_push_K3_witness) and is decided by the oracle with K3 set aside by a narrow class "
+  "predicate. That the rendering under a verbatim prefix re-parses to the folded components is likewise by oracle. "
+  "Model=code by differential testing; the harness has an independent Rust version of the rule table.",
+  theorems=["TP.C08.win_push_bytes", "TP.C08.win_push_verbatim", "TP.C08.verbatimFold_no_cur_added", "TP.C08.win_push_empty",
+            "TP.C08.pushes_follow_rules", "TP.C08.win_push_K3_witness", "TP.C08.wPrefix_eq", "TP.C08.wIsOnlyDisk_eq", "TP.C08.hasRoot_no_prefix"],
   rule=NONTRIV + "bases x arguments; non-trivial = non-empty argument", design_ref="§5 C08")
 
 P("C09", "proof", "Lean 4 theorems (law B of the back parser, byte-prefix lemma) + model/code correspondence; Windows byte-level re-parse clause by correspondence only",
